@@ -15,7 +15,6 @@
 
 namespace vf {
 
-extern std::atomic<int> g_tsan_reports; // incremented by __tsan_on_report (concurrent_main.cpp)
 
 struct ConcStats {
     std::atomic<int> active{0};
@@ -50,7 +49,7 @@ void run_readers(Ctx &c, Seq seq, size_t nops, const char *what) {
     const bool readers_first = c.case_idx % 4 < 2;
     if (!readers_first)
         for (int t = 0; t < threads; ++t) alone_before[t] = seq(seeds[t], nops, st, false);
-    int reports_before = g_tsan_reports.load();
+    int reports_before = g_tsan_hits;
     {
         std::atomic<int> ready{0};
         std::atomic<bool> go{false};
@@ -70,7 +69,7 @@ void run_readers(Ctx &c, Seq seq, size_t nops, const char *what) {
         for (int t = 0; t < threads; ++t) alone_before[t] = seq(seeds[t], nops, st, false);
     c.count(readers_first ? "rounds_readers_query_first" : "rounds_sequential_reference_first");
     set_affinity(0);
-    int reports = g_tsan_reports.load() - reports_before;
+    int reports = g_tsan_hits - reports_before;
     for (int t = 0; t < threads; ++t)
         if (together[t] != alone_before[t] || alone_after[t] != alone_before[t]) {
             c.violation("concurrent_result_differs", J().str("object", what).num("thread", t).num("threads", threads)
